@@ -99,6 +99,13 @@ def r_readexact(run, F, rule="R-READEXACT"):
             for n in walk(body["body"]):
                 if n.get("k") == "mcall" and (n.get("callee") or "").endswith(("::read_bytes", "::read_string")) and (n.get("callee") or "").startswith(rty):
                     a = unwrap(n["args"][0])
+                    if a.get("k") == "path" and a["res"].get("r") == "local":
+                        # a plain immutable `let size = raw as usize;` is looked through
+                        for s in walk(body["body"]):
+                            if s.get("k") == "let" and s.get("pat", {}).get("k") == "bind" and s["pat"].get("id") == a["res"].get("id") and \
+                                    "Mut" not in str(s["pat"].get("mode", "")) and "init" in s:
+                                a = unwrap(s["init"])
+                                break
                     ok = a.get("k") == "cast" and a.get("ty") == "usize" and unwrap(a["e"]).get("ty") == "u16"
                     is_fwd = a.get("k") == "path" and a["res"].get("r") == "local" and path.endswith("::read_string")
                     run.ob(rule, "%s: element length is a u16 widening" % path.split("::", 2)[-1], ok or is_fwd,
@@ -400,16 +407,25 @@ def r_propagate(run, F, rule="R-PROPAGATE"):
         root = body["body"]
         # walk with consumer context
         stack = [(root, "tail")]
+        uses = {}       # local id -> contexts in which the local is used
+        pending = []    # fallible results bound by a plain `let x = ..;` - judged by what happens to x
         while stack:
             n, ctx = stack.pop()
             if not isinstance(n, dict):
                 continue
             k = n.get("k")
+            if k == "path" and n.get("res", {}).get("r") == "local":
+                uses.setdefault(n["res"].get("id"), []).append(ctx)
+            if isinstance(ctx, tuple) and ctx[0] == "let-bound":
+                if (k in ("call", "mcall") and result_err(n.get("ty")) and not n.get("ctor")) or (k == "match" and n.get("src") == "await" and result_err(n.get("ty"))):
+                    pending.append((ctx[1], n))
+                    n["_bound_to"] = ctx[1]
+                ctx = "let"
             if k in ("call", "mcall") and result_err(n.get("ty")) and not n.get("ctor") and not (n.get("exp") and any(e.split("::")[-1] in ("trace", "error", "debug", "info", "warn") for e in n["exp"])):
                 c = callee(n) or ""
                 if not c.startswith("std::ops::") and not c.endswith("::from_residual"):
                     n_sites += 1
-                    ok = ctx in ("try", "tail", "pass")
+                    ok = ctx in ("try", "tail", "pass") or "_bound_to" in n
                     run.ob(rule, "%s: result of %s is propagated" % (path.split("::", 2)[-1], c.split("::")[-1]), ok,
                            "the %s of %s is consumed by `%s` instead of `?` / return (an I/O or parse error can be swallowed)" % (n.get("ty", "")[:50], c, ctx),
                            site(body, n), key="%s|%s|%s|%s" % (rule, path, c.split("::")[-1], ctx))
@@ -426,7 +442,7 @@ def r_propagate(run, F, rule="R-PROPAGATE"):
                     # the awaited value is the fallible result of the async call
                     c = callee(unwrap(inner)) or "await"
                     n_sites += 1
-                    ok = ctx in ("try", "tail", "pass")
+                    ok = ctx in ("try", "tail", "pass") or "_bound_to" in n
                     run.ob(rule, "%s: result of %s.await is propagated" % (path.split("::", 2)[-1], c.split("::")[-1]), ok,
                            "the %s of %s.await is consumed by `%s` instead of `?` / return" % (n.get("ty", "")[:50], c, ctx),
                            site(body, n), key="%s|%s|%s|%s" % (rule, path, c.split("::")[-1], ctx))
@@ -475,7 +491,8 @@ def r_propagate(run, F, rule="R-PROPAGATE"):
                     elif s["k"] == "let":
                         if "init" in s:
                             pk = s["pat"].get("k")
-                            stack.append((s["init"], "let _" if pk == "wild" else "let"))
+                            plain = pk == "bind" and "sub" not in s["pat"] and "Mut" not in str(s["pat"].get("mode", "")) and "els" not in s
+                            stack.append((s["init"], "let _" if pk == "wild" else (("let-bound", s["pat"]["id"]) if plain else "let")))
                         if "els" in s:
                             stack.append((s["els"], "discarded"))
                 if "expr" in n:
@@ -512,6 +529,15 @@ def r_propagate(run, F, rule="R-PROPAGATE"):
                 if isinstance(lst, list):
                     for x in lst:
                         stack.append((x.get("e", x) if isinstance(x, dict) else x, "operand"))
+        # `let r = fallible(); ... r` / `r?` / `return r`: the binding is a temporary for the propagated result
+        for lid, n in pending:
+            n.pop("_bound_to", None)
+            ctxs = uses.get(lid, [])
+            ok = bool(ctxs) and all(c in ("try", "tail", "pass") for c in ctxs)
+            c = callee(n) or (callee(unwrap(unwrap(n["scrut"])["args"][0])) if n.get("k") == "match" and unwrap(n["scrut"]).get("args") else "") or "await"
+            run.ob(rule, "%s: let-bound result of %s is propagated" % (path.split("::", 2)[-1], c.split("::")[-1]), ok,
+                   "the fallible result of %s is bound by `let` and then used as %s: not (only) propagated with `?` / returned (an I/O or parse error can be swallowed)" % (c, ctxs or "nothing"),
+                   site(body, n), key="%s|%s|%s|let" % (rule, path, c.split("::")[-1]))
     return n_sites
 
 
